@@ -11,6 +11,7 @@
 #include <kernel/global/vector.hpp>
 #include <kernel/lafem/vector_mirror.hpp>
 #include <kernel/util/dist.hpp>
+#include <cstdio>
 
 // Q is a trivially copyable 64-bit handle: for the (memcpy based, single-process) serial Dist::Comm it travels as uint64
 namespace FEAT { namespace Dist { template<> const Datatype& autotype<Q>() { return dt_unsigned_int64; } } }
@@ -177,6 +178,45 @@ namespace c18
       global_quad<GlobalTransferType, GlobalVectorType>(o, "GMW", c, gs.gate_f, gs.gate_c, x, y); }
     { GlobalTransferType c = gm.clone(LAFEM::CloneMode::Deep);
       global_quad<GlobalTransferType, GlobalVectorType>(o, "GMD", c, gs.gate_f, gs.gate_c, x, y); }
+  }
+
+  // ---------------------------------------------------------------------------------------------------------------
+  // value-type conversion on the real code: <double,u64> -> <float,u32> -> <double,u64> (mixed precision hierarchy);
+  // oracle-only (results are floats): every member of every converted object, printed with 17 significant digits
+  // ---------------------------------------------------------------------------------------------------------------
+  template<typename Vec_> static void show_fp(std::ostream& o, const Vec_& v)
+  {
+    o << v.size();
+    char buf[64];
+    for(Index i(0); i < v.size(); ++i) { std::snprintf(buf, sizeof(buf), "%.17g", double(v(typename Vec_::IndexType(i)))); o << " " << buf; }
+  }
+
+  template<typename Transfer_, typename Vec_>
+  static void fp_quad(std::ostream& o, const char* tag, const Transfer_& t, const Vec_& x, const Vec_& y)
+  {
+    typedef typename Vec_::DataType DT;
+    Vec_ p(y.size(), DT(5)), r(x.size(), DT(5)), tr(x.size(), DT(5)), tp(x.size(), DT(5));
+    t.prol(p, x); t.rest(y, r); t.trunc(y, tr); t.trunc(p, tp);
+    o << " " << tag << " "; show_fp(o, p); o << " "; show_fp(o, r); o << " "; show_fp(o, tr); o << " "; show_fp(o, tp);
+  }
+
+  void float_convert_sections(std::ostream& o, const MatrixType& prol, const MatrixType& rest, const MatrixType& trunc,
+    const VectorType& x, const VectorType& y)
+  {
+    typedef LAFEM::SparseMatrixCSR<double, Index> MatrixD;
+    typedef LAFEM::DenseVector<double, Index> VectorD;
+    typedef LAFEM::SparseMatrixCSR<float, Index32> MatrixF;
+    typedef LAFEM::DenseVector<float, Index32> VectorF;
+    MatrixD pd, rd, td; pd.convert(prol); rd.convert(rest); td.convert(trunc);
+    VectorD xd, yd; xd.convert(x); yd.convert(y);
+    LAFEM::Transfer<MatrixD> ltd(std::move(pd), std::move(rd), std::move(td));
+    fp_quad(o, "DD", ltd, xd, yd);
+    LAFEM::Transfer<MatrixF> ltf; ltf.convert(ltd);
+    VectorF xf, yf; xf.convert(xd); yf.convert(yd);
+    fp_quad(o, "DF", ltf, xf, yf);
+    LAFEM::Transfer<MatrixD> ltb; ltb.convert(ltf);
+    fp_quad(o, "FD", ltb, xd, yd);
+    { auto c = ltf.clone(LAFEM::CloneMode::Deep); fp_quad(o, "FC", c, xf, yf); }
   }
 
   // the halves that only a ghost process may call (and prol_cancel, which nobody may call): they must abort
